@@ -149,6 +149,35 @@ def _narrow(e):
     return sorted({"narrow:" + NARROW.match(a).group(1) for a in atoms(e) if NARROW.match(a)})
 
 
+def _closure_captures(fn, ex, op):
+    """Expression trees of what a closure passed as this operand captures (empty when the operand is not a closure built in this function)."""
+    seen = 0
+    while seen < 5 and op.get("k") in ("copy", "move") and not op["pl"]["p"]:
+        seen += 1
+        ds = defs_of(fn).get(op["pl"]["l"], [])
+        if len(ds) != 1 or ds[0][0] != "st":
+            return []
+        rv = ds[0][2]
+        if rv["r"] == "agg" and rv.get("closure"):
+            return [ex.operand(o) for o in rv.get("ops", [])[:12]]
+        if rv["r"] == "use":
+            op = rv["a"]
+        elif rv["r"] == "ref" and not rv["pl"]["p"]:
+            op = {"k": "copy", "pl": rv["pl"]}
+        else:
+            return []
+    return []
+
+
+def _narrow_op(fn, ex, a):
+    """Narrowing adaptors on the way into an argument; for a closure argument, on the way into anything it captures (the element a
+    `retain(|x| x != picked)` keeps or drops is selected where `picked` was computed)."""
+    out = set(_narrow(ex.operand(a)))
+    for ce in _closure_captures(fn, ex, a):
+        out |= set(_narrow(ce))
+    return sorted(out)
+
+
 GATE = ("try", "match", "match-far", "isok", "bool", "plain-return")
 
 
@@ -249,7 +278,7 @@ def summarize(F, key):
         keep = [c for c in blst if (c["sink"] and (c["ws"] or _recv_is_state(fn, c["t"], ex))) or (c["ws"] and _swap_prone(F, c["t"]))]
         if not keep:
             continue
-        args[bk] = [[_stab(F, ex.operand(a)) + _narrow(ex.operand(a)) for a in c["t"]["args"][:6]] for c in keep]
+        args[bk] = [[_stab(F, ex.operand(a)) + _narrow_op(fn, ex, a) for a in c["t"]["args"][:6]] for c in keep]
     # guards: every real branch condition - `?`, log-level tests and loop headers excluded
     conds = {}
     guards = []
@@ -280,6 +309,13 @@ def summarize(F, key):
             if sig and sig[0] != "branch" and sig not in guards:
                 guards.append(sig)
     guards.sort(key=lambda g: json.dumps(g))
+    # loops: the tests that decide whether a loop goes round again (`while a > b { .. }`): turned into a plain `if` the body runs at most once
+    lt = loop_exit_tests(fn)
+    loops = []
+    for bi, (sig, _am, _els) in conds.items():
+        if bi in lt and sig not in loops:
+            loops.append(sig)
+    loops.sort(key=lambda g: json.dumps(g))
     # silent: conditions a state-changing call is control dependent on whose other outcome carries on normally (not a rejection)
     silent = {}
     ok_rets = {b for b in rets if b not in dead}
@@ -375,8 +411,71 @@ def summarize(F, key):
         if bi in live and any(re.search(r"^core::(option::Option|result::Result)::[a-z_]+$", nm) for nm in callee_names(t)):
             combs += 1
     return {"must": must, "order": order, "args": args, "guards": guards, "silent": silent, "assigns": assigns, "ret": ret,
-            "consts": const_census(fn), "universe": sorted(universe), "gates": gates, "gates_tested": gates_tested, "combs": combs, "rejects": rejects, "reject_vars": sorted(var_blocks), "each": each,
+            "consts": const_census(fn), "universe": sorted(universe), "gates": gates, "gates_tested": gates_tested, "combs": combs, "rejects": rejects, "reject_vars": sorted(var_blocks), "each": each, "loops": loops,
             "guard_n": sorted([json.loads(g), c] for g, c in gcount.items() if c > 1), "guard_all": dict(gcount)}
+
+
+def _dominators(fn):
+    d = fn.get("_dom")
+    if d is not None:
+        return d
+    live = sorted(live_blocks(fn))
+    pr = preds(fn)
+    full = set(live)
+    dom = {b: set(full) for b in live}
+    dom[0] = {0}
+    changed = True
+    while changed:
+        changed = False
+        for b in live:
+            if b == 0:
+                continue
+            ps = [dom[p] for p in pr[b] if p in dom]
+            new = (set.intersection(*ps) if ps else set()) | {b}
+            if new != dom[b]:
+                dom[b] = new
+                changed = True
+    fn["_dom"] = dom
+    return dom
+
+
+def loop_exit_tests(fn):
+    """Switch blocks that decide whether a loop goes round again: members of a natural loop (back edge p -> h, h dominates p) with one
+    outcome staying inside the loop and another leaving it. The test of an `if` nested in an enclosing loop is not one (both outcomes stay)."""
+    got = fn.get("_loop_tests")
+    if got is not None:
+        return got
+    dom = _dominators(fn)
+    succ = succs(fn)
+    pr = preds(fn)
+    loops = []
+    for p in dom:
+        for h in succ[p]:
+            if h in dom[p]:
+                body = {h, p}
+                st = [p]
+                while st:
+                    x = st.pop()
+                    if x == h:
+                        continue
+                    for y in pr[x]:
+                        if y in dom and y not in body:
+                            body.add(y)
+                            st.append(y)
+                loops.append(body)
+    out = set()
+    for bi, b in enumerate(fn["blocks"]):
+        if b["term"]["k"] != "switch" or bi not in dom:
+            continue
+        inside = [L for L in loops if bi in L]
+        if not inside:
+            continue
+        L = min(inside, key=len)
+        tg = set(succ[bi])
+        if any(t in L for t in tg) and any(t not in L for t in tg):
+            out.add(bi)
+    fn["_loop_tests"] = out
+    return out
 
 
 ALLOC_HINT = re.compile(r"::(with_capacity|reserve|reserve_exact)$")
@@ -923,7 +1022,10 @@ def check(ctx, prop):
                         # a new filtering / truncating adaptor on the way into the call: part of the data no longer reaches the state change
                         extra = [sorted({a for a in cy if a.startswith("narrow:")} - set(bx)) for bx, cy in zip(base_alt, cur_alt)]
                         sink_was_conditional = any(_short_callee(sk) == bc for sk in b.get("silent", {}))
-                        if any(extra) and "narrow_checked" in b and not sink_was_conditional:
+                        # (a sink that already ran only for some elements tolerates one more filter; a *different* selector in the place of a
+                        # confirmed one - `last()` replaced by `find(..)` - changes which element the state change is applied to)
+                        replaced = any(ex_ and any(a.startswith("narrow:") for a in bx) for bx, ex_ in zip(base_alt, extra))
+                        if any(extra) and "narrow_checked" in b and (not sink_was_conditional or replaced):
                             best = [["+" + a for a in ex_] for ex_ in extra]
                             break
                         okay = True
@@ -953,6 +1055,26 @@ def check(ctx, prop):
             ctx.record("baseline-guard", "R9", k, "%s: branch condition %s(%s ; %s) is present" % (short(k, 2), g[0], ",".join(g[1])[:80], ",".join(g[2])[:80]), "violation", [where],
                        ["on the confirmed tree %s branched on %s(%s ; %s); no branch with this operator and these operand origins remains (guard removed, weakened or its operands re-sourced)"
                         % (k, g[0], g[1], g[2]), "current conditions: %s" % [c for c in cur["guards"] if c[0] == g[0]][:4]], key_detail="guard:%s:%s:%s" % (g[0], ",".join(g[1])[:60], ",".join(g[2])[:60]))
+        # ---- loops: a confirmed loop test still decides a loop (not a single-shot `if`)
+        for g in b.get("loops", []):
+            n["loops"] += 1
+            g1, g2 = _live_atoms(F, g[1]), _live_atoms(F, g[2])
+
+            def same(cg):
+                if cg[0] != g[0]:
+                    return False
+                return (g1 <= set(cg[1]) and g2 <= set(cg[2])) or (g[0] == "Eq" and g1 <= set(cg[2]) and g2 <= set(cg[1]))
+            here = [cg for cg in cur["guards"] if same(cg)]
+            if not here:
+                continue  # the test is gone from this function (moved into a closure / helper, or removed: the guard facet's matter)
+            if any(same(cg) for cg in cur.get("loops", [])):
+                continue
+            if any(same(cg) for x in closures + helpers for cg in cs.get(x).get("loops", [])):
+                continue
+            bad += 1
+            ctx.record("baseline-loop", "R9", k, "%s: the loop test %s(%s ; %s) still decides a loop" % (short(k, 2), g[0], ",".join(g[1])[:70], ",".join(g[2])[:70]), "violation", [where],
+                       ["on the confirmed tree %s repeated a loop body for as long as %s(%s ; %s) held; the test is still made but no longer re-evaluated after the body "
+                        "(`while` became `if`: the body runs at most once)" % (k, g[0], g[1], g[2])], key_detail="loop:%s:%s:%s" % (g[0], ",".join(g[1])[:60], ",".join(g[2])[:60]))
         # ---- guard multiplicity: several distinct tests can share one signature (`k == i`, `j == i`, `uvs[j] == uvs[i]` in the cycle walk):
         # as many comparisons with that operator and those operand origins remain, here, in the closures or in directly called helpers
         for g, cnt in b.get("guard_n", []):
